@@ -43,7 +43,8 @@ EXPLANATION = (
     "effect of gsm_fn2gsmtime by the decomposition of its argument -- against the decomposition of (fn + delta) mod 2715648: each of the "
     "2715648 frame numbers for delta == 1, frame numbers around every carry point for the other deltas of the property; the moduli / "
     "carry-table obligations are then recorded as an open structural proof. Every value stored into a field of the running time fits "
-    "the field (bit-field widths included), so the mathematical terms are what the C code computes.")
+    "the field (bit-field widths included), so the mathematical terms are what the C code computes. "
+    "The Python builtin divmod(a, b) is the pair (a div b, a mod b) of the normal form (projections and tuple unpacking resolved).")
 ASSUMPTIONS = [
     "arithmetic consequences of the verified formulas (round trip for each of the 2715648 frame numbers, agreement of the "
     "incremental and the recomputed time at every carry point) follow by the Chinese remainder argument from the checked "
@@ -683,6 +684,18 @@ class _PL(X.PyLower):
         self.sym = sym
 
     def lower(self, e):
+        if isinstance(e, ast.Call) and isinstance(e.func, ast.Name) and e.func.id == "divmod" and len(e.args) == 2 \
+                and not e.keywords and not any(isinstance(a, ast.Starred) for a in e.args) \
+                and "divmod" not in self.env and self.sym.is_builtin("divmod"):
+            # the builtin on integers: divmod(a, b) == (a // b, a % b) (floor semantics, like the normal form)
+            a, b = self.lower(e.args[0]), self.lower(e.args[1])
+            return ("tuple", X.div(a, b), X.mod(a, b))
+        if isinstance(e, ast.Subscript) and not isinstance(e.slice, ast.Slice):
+            # a constant projection of a tuple that is known element by element (`divmod(a, b)[1]`, `(q, r)[0]`)
+            v, i = self.lower(e.value), self.lower(e.slice)
+            if v[0] == "tuple" and i[0] == "c" and -(len(v) - 1) <= i[1] < len(v) - 1:
+                return v[1:][i[1]]
+            return ("idx", v, i)
         if isinstance(e, ast.Call) and isinstance(e.func, ast.Attribute) and isinstance(e.func.value, ast.Name) \
                 and e.func.value.id in ("self", "cls") and self.sym.ci is not None and not e.keywords:
             c, m = self.sym.repo.find_method(self.sym.ci, e.func.attr)
@@ -770,6 +783,28 @@ class PySym:
         ins = tuple(env.get(k, V(k)) for k in reads)
         for k in targets + own:
             env[k] = ("loop", "%s@%d" % (k, st.lineno)) + ins
+
+    def is_builtin(self, name):
+        """`name` is bound nowhere in the module (no def / class / assignment / import / parameter of that name, no
+        star import that could bring one): a call of it is a call of the Python builtin"""
+        cache = self.__dict__.setdefault("_builtin", {})
+        if name not in cache:
+            bound = False
+            for n in ast.walk(self.mod.tree):
+                if isinstance(n, (ast.FunctionDef, ast.AsyncFunctionDef, ast.ClassDef)) and n.name == name:
+                    bound = True
+                elif isinstance(n, ast.Name) and n.id == name and not isinstance(n.ctx, ast.Load):
+                    bound = True
+                elif isinstance(n, ast.arg) and n.arg == name:
+                    bound = True
+                elif isinstance(n, (ast.Import, ast.ImportFrom)) and any(
+                        (a.asname or a.name).split(".")[0] == name or a.name == "*" and not (
+                            isinstance(n, ast.ImportFrom) and n.module in ("enum", "typing")) for a in n.names):
+                    bound = True
+                elif isinstance(n, (ast.Global, ast.Nonlocal)) and name in n.names:
+                    bound = True
+            cache[name] = not bound
+        return cache[name]
 
     def const(self, e):
         if isinstance(e, (ast.Name, ast.Attribute, ast.BinOp, ast.UnaryOp, ast.Constant)):
